@@ -36,7 +36,7 @@ def gen_list_field(rng, kind, name):
     if kind == "comma" and rng.random() < 0.15:
         # a comma-separated value may itself run over many continuation lines
         k = rng.randrange(n)
-        vals[k] = "w0" + "".join("\n%sw%d x" % (rng.choice([" ", "\t", "  "]), j) for j in range(1, rng.choice([2, 6, 9])))
+        vals[k] = rng.choice(["w0", "#w0", "#"]) + "".join("\n%sw%d x" % (rng.choice([" ", "\t", "  "]), j) for j in range(1, rng.choice([2, 6, 9])))
     sep = lambda: rng.choice([" ", "  ", "\t"]) if kind == "space" else rng.choice([", ", ",", " , ", ",  "])
     text = name + rng.choice([": ", ":", ":  "])
     for i, v in enumerate(vals):
